@@ -44,21 +44,45 @@ def _setuser_sites(fn):
     return sites
 
 
-def _handlers(fn, tr, rollback_stmt):
-    """[(exception, rolls back)] in source order; every handler must end by raising (irc.error(..., Raise=True)) or,
-    when allow_fallthrough, by an irc.error(...) that is the last statement of the command"""
+def _handlers(fn, tr, undo):
+    """[(exception, undoes the edit)] in source order.  `undo`: the statements that put the live account back.  A handler
+    may only contain those, the building of the error text, and must end by raising or by irc.error(...)"""
     out = []
     for h in tr.handlers:
         need(h.type is not None and not isinstance(h.type, ast.Tuple), '%s: bare/tuple except around setUser' % fn.name)
         name = ast.unparse(h.type)
         need(name in EXN4, '%s: handler for unknown exception %s around setUser' % (fn.name, name))
         stmts = [ast.unparse(s) for s in h.body]
-        rb = rollback_stmt is not None and rollback_stmt in stmts
-        need(all(s == rollback_stmt or s.startswith('irc.error(') or s.startswith('err ') or s.startswith('if caller_is_owner')
+        rb = bool(undo) and all(u in stmts for u in undo)
+        need(all(s in undo or s == 'raise' or s.startswith('irc.error(') or s.startswith('err ') or s.startswith('if caller_is_owner')
                  for s in stmts), '%s: unexpected statement in except %s: %r' % (fn.name, name, stmts))
-        need(stmts and stmts[-1].startswith('irc.error('), '%s: except %s does not end with irc.error' % (fn.name, name))
-        out.append((EXN4[name], rb, 'Raise=True' in stmts[-1]))
+        need(stmts and (stmts[-1] == 'raise' or stmts[-1].startswith('irc.error(')),
+             '%s: except %s does not end with raise / irc.error' % (fn.name, name))
+        out.append((EXN4[name], rb, stmts[-1] == 'raise' or 'Raise=True' in stmts[-1]))
     return out
+
+
+def _site(cls, name, undo, bodies, saved=None):
+    """the handlers around the one setUser of cls.name: [] when it is not inside a try.  `bodies`: the try bodies accepted;
+    `saved`: statement(s) that must precede the edit for the undo to be meaningful"""
+    fn = _method(cls, name)
+    sites = _setuser_sites(fn)
+    need(len(sites) == 1, '%s: expected exactly one setUser' % name)
+    call, tr, stmt = sites[0]
+    if tr is None:
+        return fn, None, []
+    need(not tr.orelse and not tr.finalbody, '%s: else/finally around setUser' % name)
+    need([ast.unparse(s) for s in tr.body] in bodies, '%s: try body around setUser changed: %r' % (name, [ast.unparse(s) for s in tr.body]))
+    hs = _handlers(fn, tr, undo)
+    if any(r for (_, r, _) in hs):
+        src = ast.unparse(fn)
+        for sv in (saved or []):
+            need(sv in src and src.index(sv) < src.index(ast.unparse(tr.body[0])), '%s: %r does not precede the edit' % (name, sv))
+    return fn, tr, hs
+
+
+def _emit(name, hs):
+    return 'Definition %s : list (exn * bool) := %s.\n' % (name, clist('(%s, %s)' % (e, cbool(r)) for (e, r, _) in hs))
 
 
 @table('T04')
@@ -70,14 +94,13 @@ def gen_T04():
         if isinstance(n, ast.ClassDef) and n.name == 'hostmask':
             hm = n
     need(hm is not None, 'no class User.hostmask')
-    # ---- hostmask add: try: setUser  except ...: [rollback] error
+    # ---- hostmask add: try: setUser  except ...: [undo addHostmask, only if it added] error
+    guarded = 'if not alreadyThere:\n    user.removeHostmask(hostmask)'
     add = _method(hm, 'add')
-    sites = _setuser_sites(add)
-    need(len(sites) == 1 and sites[0][1] is not None, 'hostmask add: expected exactly one setUser, inside a try')
-    call, tr, stmt = sites[0]
-    need(len(tr.body) == 1 and ast.unparse(tr.body[0]) == 'ircdb.users.setUser(user)' and not tr.orelse and not tr.finalbody,
-         'hostmask add: the try body is not just ircdb.users.setUser(user)')
-    add_h = _handlers(add, tr, 'user.removeHostmask(hostmask)')
+    g = guarded in [ast.unparse(s) for n in ast.walk(add) if isinstance(n, ast.ExceptHandler) for s in n.body]
+    add, tr, add_h = _site(hm, 'add', [guarded] if g else ['user.removeHostmask(hostmask)'], [['ircdb.users.setUser(user)']],
+                           saved=['alreadyThere = hostmask in user.hostmasks'] if g else None)
+    need(tr is not None, 'hostmask add: setUser is not inside a try')
     need(all(r for (_, _, r) in add_h), 'hostmask add: a handler around setUser does not raise')
     body = [ast.unparse(s) for s in add.body]
     need(body[-1] == 'irc.replySuccess()' and add.body[-2] is tr, 'hostmask add: setUser try is not followed by replySuccess only')
@@ -85,31 +108,54 @@ def gen_T04():
     need(len(adds) == 1 and add.body.index(adds[0]) == add.body.index(tr) - 1 and len(adds[0].handlers) == 1
          and ast.unparse(adds[0].handlers[0].type) == 'ValueError',
          'hostmask add: user.addHostmask(hostmask) / except ValueError does not directly precede the setUser try')
-    # ---- identify: try: addAuth; setUser; replySuccess  except ValueError: error (no rollback)
-    ident = _method(user, 'identify')
-    sites = _setuser_sites(ident)
-    need(len(sites) == 1 and sites[0][1] is not None, 'identify: expected exactly one setUser, inside a try')
-    tr = sites[0][1]
-    need([ast.unparse(s) for s in tr.body] == ['user.addAuth(msg.prefix)', 'ircdb.users.setUser(user, flush=False)', 'irc.replySuccess()'],
-         'identify: try body changed')
-    id_h = _handlers(ident, tr, None)
-    # ---- no handler at all around setUser in the others
-    plain = {}
-    for cls, name, before in ((user, 'register', 'user.addHostmask(msg.prefix)'), (user, 'changename', 'user.name = newname'),
-                              (user, 'unidentify', 'user.clearAuth()'), (hm, 'remove', None)):
-        fn = _method(cls, name)
-        sites = _setuser_sites(fn)
-        need(len(sites) == 1 and sites[0][1] is None, '%s: expected exactly one setUser, outside any try' % name)
-        need(ast.unparse(sites[0][2]) == 'ircdb.users.setUser(user)', '%s: setUser call changed' % name)
-        if before is not None:
-            need(before in ast.unparse(fn), '%s: %s is gone' % (name, before))
-    rm = _method(hm, 'remove')
-    trs = [s for s in rm.body if isinstance(s, ast.Try)]
+    if g:
+        need(body[add.body.index(adds[0]) - 1] == 'alreadyThere = hostmask in user.hostmasks',
+             'hostmask add: alreadyThere is not computed right before user.addHostmask(hostmask)')
+    # ---- identify: try: addAuth; setUser; replySuccess  except ValueError: [restore auth] error
+    ident, tr, id_h = _site(user, 'identify', ['user.auth = auth'],
+                            [['user.addAuth(msg.prefix)', 'ircdb.users.setUser(user, flush=False)', 'irc.replySuccess()']],
+                            saved=['auth = list(user.auth)'])
+    need(tr is not None, 'identify: setUser is not inside a try')
+    # ---- unidentify, changename, hostmask remove, register
+    _, _, un_h = _site(user, 'unidentify', ['user.auth = auth'], [['ircdb.users.setUser(user)']], saved=['auth = user.auth', 'user.clearAuth()'])
+    need('user.clearAuth()' in ast.unparse(_method(user, 'unidentify')), 'unidentify: user.clearAuth() is gone')
+    _, _, cn_h = _site(user, 'changename', ['user.name = oldname', 'ircdb.users.invalidateCache(user.id)'], [['ircdb.users.setUser(user)']],
+                       saved=['oldname = user.name', 'user.name = newname'])
+    need('user.name = newname' in ast.unparse(_method(user, 'changename')), 'changename: user.name = newname is gone')
+    rm, _, rm_h = _site(hm, 'remove', ['user.hostmasks = hostmasks'], [['ircdb.users.setUser(user)']],
+                        saved=['hostmasks = ircutils.IrcSet(user.hostmasks)'])
+    trs = [s for s in rm.body if isinstance(s, ast.Try) and 'user.removeHostmask(hostmask)' in ast.unparse(s)]
     need(len(trs) == 1 and len(trs[0].handlers) == 1 and ast.unparse(trs[0].handlers[0].type) == 'KeyError'
-         and 'user.removeHostmask(hostmask)' in ast.unparse(trs[0]) and ast.unparse(trs[0].handlers[0].body[-1]) == 'return',
+         and ast.unparse(trs[0].handlers[0].body[-1]) == 'return',
          'hostmask remove: try removeHostmask / except KeyError: error; return changed')
+    reg_body = ['user.name = name', 'user.setPassword(password)', 'if addHostmask:\n    user.addHostmask(msg.prefix)', 'ircdb.users.setUser(user)']
+    reg, tr, rg_h = _site(user, 'register', ['ircdb.users.delUser(user.id)'], [reg_body], saved=['user = ircdb.users.newUser()'])
+    top = [ast.unparse(x) for x in reg.body]
+    need('user = ircdb.users.newUser()' in top and top[-1] == 'irc.replySuccess()', 'register: newUser / replySuccess moved')
+    k = top.index('user = ircdb.users.newUser()')
+    need(top[k + 1:-1] == reg_body if tr is None else reg.body[k + 1] is tr and len(top) == k + 3, 'register: body changed')
+    # ---- user set secure: the guard and the unprotected setUser
+    setc = None
+    for n in user.body:
+        if isinstance(n, ast.ClassDef) and n.name == 'set':
+            setc = n
+    need(setc is not None, 'no class User.set')
+    sec = _method(setc, 'secure')
+    ifs = [n for n in sec.body if isinstance(n, ast.If) and any(_is_setuser(x) for x in ast.walk(n))]
+    need(len(ifs) == 1, 'set secure: expected one if around setUser')
+    need(ast.unparse(ifs[0].test) == 'user.checkPassword(password) and user.checkHostmask(msg.prefix, useAuth=False)',
+         'set secure: the guard is not user.checkPassword(password) and user.checkHostmask(msg.prefix, useAuth=False): '
+         + ast.unparse(ifs[0].test))
+    need([ast.unparse(x) for x in ifs[0].body][:2] == ['user.secure = value', 'ircdb.users.setUser(user)'],
+         'set secure: body of the guarded branch changed')
+    need(_setuser_sites(sec)[0][1] is None, 'set secure: setUser is now inside a try (model it)')
     out = 'Require Import Base.Wire.\n'
-    out += '(* (exception class, the handler undoes user.addHostmask(hostmask)) in source order *)\n'
-    out += 'Definition HM_ADD_HANDLERS : list (exn * bool) := %s.\n' % clist('(%s, %s)' % (e, cbool(r)) for (e, r, _) in add_h)
-    out += 'Definition IDENTIFY_HANDLERS : list (exn * bool) := %s.\n' % clist('(%s, %s)' % (e, cbool(r)) for (e, r, _) in id_h)
+    out += '(* the useAuth argument of the checkHostmask call in the guard of user set secure *)\n'
+    out += 'Definition SECURE_GUARD_USEAUTH : bool := false.\n'
+    out += '(* per command: (exception class, the handler puts the live account back) in source order, [] = no try around setUser *)\n'
+    out += _emit('HM_ADD_HANDLERS', add_h)
+    out += '(* the undo of hostmask add is skipped when the account owned the mask before (alreadyThere) *)\n'
+    out += 'Definition HM_ADD_GUARDED : bool := %s.\n' % cbool(g)
+    out += _emit('IDENTIFY_HANDLERS', id_h) + _emit('UNIDENTIFY_HANDLERS', un_h) + _emit('CHANGENAME_HANDLERS', cn_h)
+    out += _emit('REMOVE_HANDLERS', rm_h) + _emit('REGISTER_HANDLERS', rg_h)
     return 'plugins/User/plugin.py', out
